@@ -132,7 +132,11 @@ def rule_constraint_currents(ck, rid="C18.order"):
     if isinstance(e, ast.Name):
         # a dict filled in a loop over the network's constraint list with a manual row counter ("filtered enumerate")
         built = fl._loop_built(e.id, next(iter(fl.defs_at(r, e.id))), r) if len(fl.defs_at(r, e.id)) == 1 else None
-        if isinstance(built, ast.DictComp) and len(built.generators) == 1 and isinstance(built.value, ast.Subscript) and isinstance(built.value.slice, ast.Name):
+        tnames = {x.id for x in ast.walk(built.generators[0].target) if isinstance(x, ast.Name)} if isinstance(built, ast.DictComp) and len(built.generators) == 1 else set()
+        if isinstance(built, ast.DictComp) and len(built.generators) == 1 and isinstance(built.value, ast.Subscript) and isinstance(built.value.slice, ast.Name) \
+                and built.value.slice.id in tnames:
+            e = built          # the row index is a loop variable (enumerate / range): the comprehension form below reads it
+        elif isinstance(built, ast.DictComp) and len(built.generators) == 1 and isinstance(built.value, ast.Subscript) and isinstance(built.value.slice, ast.Name):
             g = built.generators[0]
             k = built.value.slice.id
             var = dotted(g.target)
@@ -169,6 +173,12 @@ def rule_constraint_currents(ck, rid="C18.order"):
         ok_range = canon(it) in (f"range(len({canon(fl.expand(names, r))}))",) or (call_name(it) == "range" and call_name(it.args[0]) == "len")
     elif call_name(it) == "zip" and isinstance(g.target, ast.Tuple):
         names, rows = it.args[0], it.args[1]
+        ok_range = True
+    elif isinstance(g.iter, ast.Call) and call_name(g.iter) == "enumerate" and len(g.iter.args) == 1 and isinstance(g.target, ast.Tuple) and len(g.target.elts) == 2 \
+            and all(isinstance(x, ast.Name) for x in g.target.elts) and isinstance(val, ast.Subscript) and canon(val.slice) == g.target.elts[0].id \
+            and canon(key) == g.target.elts[1].id:
+        # {name: rows[i] for i, name in enumerate(names)}
+        names, rows = g.iter.args[0], val.value
         ok_range = True
     else:
         raise AnalysisError(f"constraint_currents: pairing idiom not recognised: {src(e)}")
